@@ -87,7 +87,8 @@ class Mon:
         ctxkey = ctxkey or rng.choice([('v6-pmsa-sec', 'off'), ('v7-pmsa-r', 'off'), ('v7-vmsa-sec', 'off'), ('v5-pmsa', 'off'),
                                         ('v7-vmsa-virt', 'off'), ('v4-pmsa', 'off')])
         ctx = self.ctx(ctxkey)
-        desc = self.scen.prepare(ctx, rng, kind, 0, mode=rng.choice(ctx.legal_modes(0)), itpos=itpos)
+        ns = rng.randrange(2) if ctx.cfg['have_security_ext'] else 0
+        desc = self.scen.prepare(ctx, rng, kind, 0, mode=rng.choice(ctx.legal_modes(ns)), itpos=itpos, ns=ns)
         return ctx, desc
 
     def refctx(self, ctx, kind, itpos):
@@ -128,6 +129,8 @@ class Mon:
             self.prime_other_set(cpu, kind, w)
         table = self.tables[kind]
         rk, row, ops = table.decode(w, self.refctx(ctx, kind, itpos))
+        if row is not None and row.name == 'subs_pc_lr_thumb_t1' and cpu.registers.cpsr.m == 0b11010:
+            rk = 'UNDEFINED'       # SUBS PC, LR, #imm8 (imm8 != 0) is UNDEFINED in Hyp mode (B9.3.20); imm8 == 0 is ERET
         log = set()
         eo, obj = self.emu_decode(cpu, kind, w, proxy_log=log)
         self.res['evaluations'] += 1
